@@ -263,6 +263,15 @@ Definition c10_has_items (pd : parsed) : bool :=
 
 Definition c10_cls10 (b : bool) (s : string) : list string := if b then [s] else [].
 
+(* the type applies type arguments to one of the given names, at any depth *)
+Fixpoint c10_mentions_applied (names : list str) (t : rtype) : bool :=
+  match t with
+  | RSimple _ | RPrim _ => false
+  | RGeneric id ps => mem_str id names || existsb (c10_mentions_applied names) ps
+  | RVec x | RSlice x | ROption x | RArray x _ => c10_mentions_applied names x
+  | RHashMap k v => c10_mentions_applied names k || c10_mentions_applied names v
+  end.
+
 (* every class a (language, package setting, input) falls in; [] = no finding class applies *)
 Definition known_C10 (l : c10_lang) (package : str) (pd : parsed) : list string :=
   match l with
@@ -277,6 +286,11 @@ Definition known_C10 (l : c10_lang) (package : str) (pd : parsed) : list string 
   | CPY =>
     (* `Name[T] = List[T]`: a subscript assignment to an undefined name, fails when the module is imported *)
     c10_cls10 (existsb (fun a => match agenerics a with [] => false | _ => true end) (p_aliases pd)) "C10-python-generic-alias" ++
+    (* a type alias (evaluated when the module is imported) that applies type arguments to a generic ENUM: the
+       enum's classes are not declared Generic[..], `Name[..]` raises TypeError *)
+    c10_cls10 (existsb (fun a => c10_mentions_applied (map (fun e => renamed (eid (enum_shared e)))
+                                                         (filter (fun e => match egenerics (enum_shared e) with [] => false | _ => true end) (p_enums pd)))
+                                                    (atype a)) (p_aliases pd)) "C10-python-generic-enum-arg" ++
     (* `Name = Union[]` for an algebraic enum without variants: a syntax error *)
     c10_cls10 (existsb (fun e => match e with
                              | EAlgebraic _ _ sh => match evariants sh with [] => true | _ => false end
